@@ -181,6 +181,7 @@ type RollingFileAppender struct {
 	file     atomic.Pointer[os.File]
 	oldFile  atomic.Pointer[os.File]
 	currTime atomic.Int64
+	rotating atomic.Bool // a rotation is in progress: one that takes longer than an interval must finish before the next starts
 }
 
 // Start opens the initial log file.
@@ -246,6 +247,17 @@ func (c *RollingFileAppender) rotate() {
 		return
 	}
 
+	// Rotations run one after the other, in the order of their intervals.
+	// Otherwise a rotation that is still busy when the next boundary passes
+	// would put its file and its interval back in place of the newer ones.
+	for !c.rotating.CompareAndSwap(false, true) {
+		time.Sleep(time.Millisecond)
+	}
+	defer c.rotating.Store(false)
+	if c.currTime.Load() != nowTime {
+		return // overtaken while waiting: the rotation of a later interval does the work
+	}
+
 	// Close the previous rotation file
 	if file := c.oldFile.Swap(nil); file != nil {
 		_ = file.Sync()
@@ -263,7 +275,6 @@ func (c *RollingFileAppender) rotate() {
 	c.oldFile.Store(oldFile)
 
 	c.file.Store(file)
-	c.currTime.Store(nowTime)
 
 	// Cleanup expired log files asynchronously
 	go c.clearExpiredFiles()
